@@ -29,9 +29,9 @@ HARNESSES = [
        desc='ets_base::table_lookup, 2 threads: first accesses / later access while the slot array is created or doubled; hash values of the racing ids symbolic (3 top bits)',
        bounds={'threads': 2, 'free_rounds': 1, 'forced_rounds': 2, 'unroll': 1, 'slots': '4->8', 'hash_bits': 3}),
   dict(name='ets_clear', unit='etsk', harness='h_etsk.c', defines={'NT': 2}, timeout=600, mem_gb=6, cbmc=['--unwind', '16', '--max-field-sensitivity-array-size', '4096'],
-       scenarios=[{'FLAVOUR': 1}, {'FLAVOUR': 0}],
+       scenarios=[{'FLAVOUR': 1}, {'FLAVOUR': 0}, {'FLAVOUR': 1, 'NT': 3, 'HCOLL': 1}, {'FLAVOUR': 0, 'NT': 3, 'HCOLL': 1}],
        desc='real enumerable_thread_specific<int> (FLAVOUR 1: ets_key_per_instance native TLS, 0: ets_no_key), sequential steps of 2 model threads: local() x2, clear() by T0, local() x2 again',
-       bounds={'threads': 2, 'interleaving': 'none (sequential steps)', 'elements': 2}),
+       bounds={'threads': '2-3', 'interleaving': 'none (sequential steps)', 'elements': '<=3', 'hash': 'concrete (distinct / all colliding)'}),
   # ---- thorough only
   dict(name='once_2t_r3', unit='once2', harness='h_once.c', defines={'NT': 2, 'ROUNDS': 3}, tiers=['thorough'], timeout=3000, scenarios=[{}, {'COVER': 1}],
        desc='collaborative_call_once, 2 callers, 3 free slices per caller (COVER1: a helper really assisted)', bounds={'threads': 2, 'free_rounds': 3, 'forced_rounds': 3, 'spin_unroll': 1}),
@@ -58,7 +58,7 @@ HARNESSES = [
        desc='ets_base::table_lookup, 3 first accesses on a table with 2 elements: inserts 3,4,5 cross 4->8 and 8->16 slots', bounds={'threads': 3, 'free_rounds': 1, 'forced_rounds': 2, 'unroll': 1, 'slots': '4->8->16', 'hash_bits': 4}),
 ]
 MANIFEST = dict(
-  level_text='Bounded model checking of the real collaborative_call_once.h and of ets_base::table_lookup (enumerable_thread_specific.h): for 2-3 threads every interleaving (single-IR-memory-operation granularity) within the stated scheduling rounds is decided by the SAT solver. once: exactly one successful run, callers return only after it, a throwing run (exceptions build, symbolic subset of runs) delivers its exception to exactly that caller and resets the flag so that another caller retries, runner storage on the winner\'s stack never used after destruction / runner never written after its owner returned, no lost wake-up in any wait loop (blocked-state oracle). ets: one element and one initialiser call per thread id, stable address, consistent table (every id present once per array with its own element, chain of arrays strictly shrinking, root at most half full) while first/later accesses race with the creation and doubling (4->8->16 slots) of the slot array, hash values symbolic.',
+  level_text='Bounded model checking of the real collaborative_call_once.h and of ets_base::table_lookup (enumerable_thread_specific.h): for 2-3 threads every interleaving (single-IR-memory-operation granularity) within the stated scheduling rounds is decided by the SAT solver. once: exactly one successful run, callers return only after it, a throwing run (exceptions build, symbolic subset of runs) delivers its exception to exactly that caller and resets the flag so that another caller retries, runner storage on the winner\'s stack never used after destruction / runner never written after its owner returned, no lost wake-up in any wait loop (blocked-state oracle). ets: one element and one initialiser call per thread id, stable address, consistent table (every id present once per array with its own element, chain of arrays strictly shrinking, root at most half full) while first/later accesses race with the creation and doubling (4->8->16 slots) of the slot array, hash values symbolic. Sequentially (no interleaving) the real enumerable_thread_specific<int> in both key flavours (native TLS key / plain table): after clear() every thread\'s next local() is a first use again (one initialiser call, element part of size()/iteration/combine), also for threads that did not call clear().',
   level_note='Bounds per harness in evidence (threads, free/forced rounds, loop unroll, slots, hash bits). Sequential consistency. r1:: arena/dispatcher entry points are contract stubs running the delegate inline on the calling model thread; ets element/array storage (concurrent_vector, allocator) is stubbed at the three ets_base virtuals, so combine_each/iteration (concurrent_vector walk, C11) is not encoded. Trusted: clang-14 IR (-O2 for once), tools/ir2c.py, cbmc.',
 )
 OUTSIDE = [
@@ -67,7 +67,7 @@ OUTSIDE = [
   'real arena moonlighting: r1::execute / isolate_within_arena / execute_and_wait / wait are stubs (delegate inline, wait = spin until wait_context is zero); helpers never execute tasks of the winner, nested parallelism inside the once-function is not modelled',
   'the once-function body itself (observer calls only) and exceptions other than one user type caught by catch(...)',
   'enumerable_thread_specific::create_local / concurrent_vector my_locals / allocator (stubbed at the ets_base virtuals) and therefore combine_each, iteration, range(), clear(), copy/move of the container; combinable (thin wrapper over it)',
-  'ets_key_per_instance (native TLS fast path: pthread_getspecific) and ets_suspend_aware key selectors',
+  'ets_key_per_instance (native TLS fast path) is covered only sequentially (ets_clear: local/clear/iteration by 2-3 threads, no interleaving); copy/move assignment and swap of the container (they reach table_clear/table_swap) are not driven; ets_suspend_aware key selector',
   'the CAS-retry path of the grow block is covered only by ets_retry_3t (thorough; empty table, 4 vs 8 slots, concrete hashes, targeted schedule shape); retries against two successive smaller arrays are not covered',
   'tables beyond 16 slots / more than 5 ids; more than 2 (quick) or 3 loop iterations per scheduling slice (paths needing more are cut by the round bound, silently: coverage witnesses COVER=k and the mutation table in NOTES.md show what is reached)',
   'non-SC memory models (the relaxed loads of slot keys and the plain store of slot::ptr are only checked under sequential consistency)',
@@ -79,6 +79,8 @@ STUBS = [
   'd1::execute_and_wait(task, ctx, wait_ctx, ctx): caller executes the task itself, then spins until wait_ctx is zero; if execute() throws: task.cancel() (as task_dispatcher re-dispatches the throwing task through cancel()), wait, rethrow',
   'r1::wait(wait_ctx, ctx): spin until wait_ctx is zero; r1::notify_waiters, r1::initialize/destroy(task_group_context): no-op',
   'ets_base::create_local / create_array / free_array: harness storage (fresh element per call, fresh zero-filled-by-caller array per call, free only marks)',
+  'pthread_key_create/delete/getspecific/setspecific (ets_clear): per-thread key table; create returns the lowest free key number with value NULL in every thread, delete invalidates it, get/set on an invalid key is reported (POSIX contract)',
+  'r1::allocate_memory / cache_aligned_allocate / deallocate (ets_clear): malloc/free',
   'pthread_self: constant per model thread; std::_Hash_bytes: deterministic per key, value symbolic or fixed by the scenario (top HBITS bits)',
   'inttoptr/ptrtoint hooks vp_i2p/vp_p2i: identity on the runner objects / allocated arrays (anything else is reported)',
   'sched_yield/pause: scheduling hints; memset: word-wise model (8-byte multiples only, asserted)',
